@@ -28,26 +28,65 @@ class C28(Prop):
              "repaired it. The model is tied to the code by running the real functions under recover() on recorded "
              "files mutated field by field, truncated, zero-filled, spliced, and on foreign files, comparing outcome, "
              "value, muxer calls and a lower bound of the heap bytes inside Coq; the real parseSegment/seekAndMux with "
-             "the real muxers are exercised on the same files (outcome class and heap bytes only).",
+             "the real muxers are exercised on the same files (outcome class and heap bytes only). Directory level "
+             "(Model/C28_Dir.v): parseSegments with its goroutines (errors collected from the channel in completion "
+             "order, a slot left nil for a file that failed), concatenateSegments (dereferences every slot), the tail of "
+             "onList (entries[0], entries[1:], entries[len-1]) and seekAndMux over the selected files (segments[0], "
+             "errors of the first / of later files, mtxi.DTS): for every list of files of which any - one, several, "
+             "all; first, middle, last - may be unparsable, every completion order (any permutation) and every window, "
+             "/list and /get end in a status, never in a nil dereference or an index out of range; /list answers 500 "
+             "exactly when a selected file cannot be parsed and its answer does not depend on the completion order; the "
+             "loop `err = <-ch` (keep only the last result) is refuted with a two-file witness. Tied to the code by "
+             "running the real /list and /get handlers on generated recordings in which files were zero-filled, "
+             "truncated, zero-padded, replaced by foreign content, symlinks or empty files, or foreign files were dropped "
+             "under segment-like names, with the selection of FindSegments and the per-file parse outcomes as oracles.",
         note="PARTIAL: panic-freedom and termination INSIDE abema/go-mp4 and mediacommon are exercised, not proved; they "
              "enter the theorems as arbitrary oracle functions / event lists. One third-party defect is open "
              "(KNOWN_FINDINGS class known:trun-zero-entry-amplification): go-mp4 loops SampleCount times over a trun "
              "whose entries have no fields. Assumption on mediacommon (checked on every case, shown necessary by "
              "C28_parts_needs_timescale): fmp4.Init.Unmarshal returns tracks with a non-zero timescale. The real "
-             "muxers (muxer_fmp4.go, muxer_mp4.go) and the HTTP layer are exercised, not modelled.",
+             "muxers (muxer_fmp4.go, muxer_mp4.go) and the HTTP layer are exercised, not modelled. Directory level: "
+             "recordstore.FindSegments is an oracle (its selection is shipped per case), the per-file outcome of muxing "
+             "in /get is not observed (the /get cases pin the status only as far as the first header: 404 nothing "
+             "selected, 400 first header unreadable, else 200/400/404), time.Time/time.Duration saturation is not "
+             "modelled (entry counts are compared only when all durations are below 2^55 ns); a panic inside a "
+             "parseSegments goroutine cannot be recovered by the driver (each file is pre-screened with the real "
+             "parseSegment under recover()).",
         technique="Coq proof (case analysis over the straight-line code, induction over fuel with the measure "
                   "|file| - position for the two loops, invariant tfdt<>nil -> timeScale<>0 over event lists) + "
+                  "permutation invariance of the error collection, structural induction over the parsed list / "
+                  "the selected files with the invariant first has mtxi -> prev has mtxi) + "
                   "correspondence by vm_compute")
     rule = ("two recorded files (1 and 2 tracks, 2 parts each, Mtxi box) written with the encoders the recorder uses; the "
             "witnesses of the findings; every box size field, every mvhd/mdhd timescale and duration and every 32-bit "
             "word of the mfhd/tfhd/tfdt/trun/trex/mtxi boxes set to 0, 1, 7, 0xFFFFFFFF; box sizes also 8, 9, 2^31-1, 2^31; "
             "truncations and truncations followed by 64 zero bytes (every 3rd offset of the fragment region in the "
             "quick tier, all in thorough); foreign files (empty, JPEG, text, MPEG-TS, non-fragmented MP4 in both box "
-            "orders, zeros); then random byte flips, splices of the fragment region and random tails. Non-trivial = "
-            "the call succeeded, or failed on a file derived from a recording; distinct = distinct descriptions")
+            "orders, zeros); then random byte flips, splices of the fragment region and random tails. Directories "
+            "(n/3 requests, 8 per layout, 4 layouts per recording): recordings of 1-9 segments from C29's generator "
+            "(recorder-like segmenter; mtxi / legacy / mixed) in which the first / last / a middle / one / first and "
+            "last / all / all but one / a random subset of the files are damaged - zero-filled (same length, 64 "
+            "bytes), empty, truncated (inside ftyp, moov, at / around the first moof, mid fragment, last byte), truncated "
+            "and zero-padded, foreign (JPEG, text, MPEG-TS, non-fragmented MP4, moov without tracks, garbage), 1-3 bytes "
+            "overwritten, garbage tail, init only with duration 0, dangling symlink, symlink to a directory, a zeroed "
+            "stretch - and/or foreign or zero files are dropped under segment-like names before / between / after the "
+            "segments and under unrelated names; /list (whole directory twice, start at / near a damaged file or its "
+            "predecessor, random windows, end only) and /get (start at / near a damaged file or its predecessor, at the "
+            "first segment, random; durations 0.1-300 s; fmp4 / mp4) through the real handlers; the distribution "
+            "(endpoint:status:selection with mixed:bad-first/middle/last, none-parses, all-parse; damage kinds; "
+            "positions) is in the driver summary. Non-trivial = "
+            "the call succeeded, or failed on a file derived from a recording, or the selection mixes parsable and "
+            "unparsable files; distinct = distinct descriptions")
     trusted_base = ["Coq 8.16.1 kernel + VM (vm_compute for cases and for the _refuted witnesses)",
                     "in-package Go driver zz_verif_c28_test.go (package playback) and its Gallina printers",
                     "model Model/C28_SegRead.v hand-written, tied by correspondence (outcome, value, muxer calls)",
+                    "in-package Go driver zz_verif_c29_dirs_test.go (TestVerifC29Dirs; uses the recording generator of "
+                    "zz_verif_c29_test.go) and its Gallina printers; model Model/C28_Dir.v hand-written, tied by "
+                    "correspondence (status, number of entries)",
+                    "oracle: recordstore.FindSegments (selected files shipped per directory case); the real parseSegment / "
+                    "segmentFMP4ReadHeader per selected file (outcome shipped per case)",
+                    "Go scheduler: each parseSegments goroutine sends exactly once and the loop receives len(segments) "
+                    "times (completion order = an arbitrary permutation)",
                     "oracle: abema/go-mp4 v1.7.1 Unmarshal of Mvhd/Tfhd/Tfdt/Trun and ReadBoxStructure (answers shipped per case)",
                     "oracle: mediacommon v2.9.3 fmp4.Init.Unmarshal (tracks or error shipped per case)",
                     "runtime.MemStats.TotalAlloc as the measure of heap bytes requested by a call",
@@ -56,7 +95,9 @@ class C28(Prop):
                    "io.ReadFull/Seek/ReadAt on *os.File and bytes.Reader behave as reads of a list of bytes at a position; "
                    "Seek past the end succeeds, to a negative position fails",
                    "fmp4.Init.Unmarshal never returns a track whose TimeScale is 0",
-                   "make([]byte, n) is the only allocation of the in-tree code whose size is taken from the file"]
+                   "make([]byte, n) is the only allocation of the in-tree code whose size is taken from the file",
+                   "recordstore.FindSegments returns a non-empty list or an error",
+                   "instants and durations of the directory model are unbounded integers (no time.Time/Duration saturation)"]
 
     def run_drivers(self, ctx, n, seed, replay=None):
         # other builders add drivers to the same Go package; a half-written one must not break this check:
